@@ -48,6 +48,22 @@ func runC07(raw json.RawMessage, w *Writer) {
 	if err := json.Unmarshal(raw, &c); err != nil {
 		fatal("C07 case: %v", err)
 	}
+	if c.Kind == "random_many" {
+		// a random sequencer starts below 2^15: construct many and record the largest first value
+		max, bad := 0, 0
+		for i := 0; i < c.K; i++ {
+			v := int(rtp.NewRandomSequencer().NextSequenceNumber())
+			if v > max {
+				max = v
+			}
+			if v >= 32768 {
+				bad++
+			}
+		}
+		w.Emit(Ev{"ev": "reset", "class": c.Class, "kind": c.Kind, "start": 0, "g": 1, "k": c.K})
+		w.Emit(Ev{"ev": "random_many", "n": c.K, "max_first": max, "not_below_2_15": bad})
+		return
+	}
 	c07mu.Lock()
 	defer c07mu.Unlock()
 	var clock int64
